@@ -1,8 +1,9 @@
 (* Property C03 -- theorems only.  Each is closed by `exact <lemma>` and followed by Print Assumptions. *)
-From Coq Require Import ZArith List.
+From Coq Require Import ZArith Bool List.
 From C03 Require Monitor Effects.
 Import ListNotations.
 Local Open Scope Z_scope.
+Local Open Scope bool_scope.
 
 (* The executable monitor that is run on the event log of the real containers accepts a trace if and only if
    the trace satisfies the declarative release discipline: for every block and every element object, its own
@@ -17,3 +18,73 @@ Print Assumptions C03_monitor_sound.
 Theorem C03_monitor_complete : forall t, Monitor.trace_ok t -> Monitor.accepts t = true.
 Proof. exact Monitor.monitor_complete. Qed.
 Print Assumptions C03_monitor_complete.
+
+(* ---- L2 resource machine (Effects.v mirrors ObjectManager.h / Array.h / HashSet.h / TreeSet.h line by line).
+   Reading guide: [st_is s f bs nb] = in state s the occupied cells (constructed, not yet destroyed element
+   objects) are exactly the set f, the live blocks are exactly bs.  [post m s Qv Qe] = running m from s - whose
+   failure schedule is arbitrary - never gets Stuck (no double destroy, no construction over a live element, no use
+   of a dead one, no double free / wrong size / wrong manager), and ends normally in a state satisfying Qv or
+   with a propagating exception in a state satisfying Qe. *)
+From C03 Require EffectsProofs.
+Import Effects EffectsProofs.
+
+(* ObjectManager::RelocateExec, both relocation categories, every count, every schedule, every executor:
+   on success the count source cells are destroyed, the count destination cells (and what the executor built)
+   are live; on an exception the occupied cells are EXACTLY those before the call (every copy made so far has
+   been destroyed again, no source has been destroyed); blocks untouched. *)
+Theorem C03_relocate_exec_no_leak :
+  forall c sr sb dr db n e s f bs nb,
+    st_is s f bs nb -> reloc_pre f sr sb dr db n -> exec_ok f e ->
+    (forall l, exec_add e l = true -> inrng dr db n l = false) ->
+    post (om_relocate_exec c sr sb dr db n e) s
+         (fun _ s' => st_is s' (fun l => negb (inrng sr sb n l) && (inrng dr db n l || exec_add e l || f l)) bs nb)
+         (fun s' => st_is s' f bs nb).
+Proof. exact EffectsProofs.om_relocate_exec_post. Qed.
+Print Assumptions C03_relocate_exec_no_leak.
+
+(* ObjectManager::Relocate(srcBegin, dstBegin, count): nothrow-move items are moved and destroyed one by one and
+   nothing can throw; copy-only items go through RelocateCreate on the tail + a move-creator for the head. *)
+Theorem C03_relocate_no_leak :
+  forall c sr sb dr db n s f bs nb,
+    st_is s f bs nb -> reloc_pre f sr sb dr db n ->
+    post (om_relocate c sr sb dr db n) s
+         (fun _ s' => st_is s' (fun l => negb (inrng sr sb n l) && (inrng dr db n l || f l)) bs nb)
+         (fun s' => c = CPO /\ st_is s' f bs nb).
+Proof. exact EffectsProofs.om_relocate_post. Qed.
+Print Assumptions C03_relocate_no_leak.
+
+Theorem C03_relocate_create_no_leak :
+  forall c sr sb dr db n nd ns s f bs nb,
+    st_is s f bs nb -> reloc_pre f sr sb dr db n -> f ns = true -> f nd = false -> inrng dr db n nd = false ->
+    post (om_relocate_create c sr sb dr db n nd ns) s
+         (fun _ s' => st_is s' (fun l => negb (inrng sr sb n l) && (inrng dr db n l || loc_eqb l nd || f l)) bs nb)
+         (fun s' => st_is s' f bs nb).
+Proof. exact EffectsProofs.om_relocate_create_post. Qed.
+Print Assumptions C03_relocate_create_no_leak.
+
+(* ObjectManager::MoveExec / CopyExec: the destination is live afterwards iff the call returned normally. *)
+Theorem C03_move_exec_no_leak :
+  forall c dst src e s f bs nb,
+    st_is s f bs nb -> f src = true -> f dst = false -> exec_ok f e -> exec_add e dst = false ->
+    post (om_move_exec c dst src e) s
+         (fun _ s' => st_is s' (fun l => loc_eqb l dst || exec_add e l || f l) bs nb)
+         (fun s' => st_is s' f bs nb).
+Proof. exact EffectsProofs.om_move_exec_post. Qed.
+Print Assumptions C03_move_exec_no_leak.
+
+Theorem C03_copy_exec_no_leak :
+  forall c dst src e s f bs nb,
+    st_is s f bs nb -> f src = true -> f dst = false -> exec_ok f e -> exec_add e dst = false ->
+    post (om_copy_exec c dst src e) s
+         (fun _ s' => st_is s' (fun l => loc_eqb l dst || exec_add e l || f l) bs nb)
+         (fun s' => st_is s' f bs nb).
+Proof. exact EffectsProofs.om_copy_exec_post. Qed.
+Print Assumptions C03_copy_exec_no_leak.
+
+(* ObjectManager::Destroy(begin, count) on count live cells never destroys twice and leaves them all raw. *)
+Theorem C03_destroy_range_exact :
+  forall r n base s f bs nb,
+    st_is s f bs nb -> (forall k, 0 <= k < Z.of_nat n -> f (r, base + k) = true) ->
+    post (om_destroy_n r base n) s (fun _ s' => st_is s' (fun l => negb (inrng r base n l) && f l) bs nb) (fun _ => False).
+Proof. exact EffectsProofs.om_destroy_n_post. Qed.
+Print Assumptions C03_destroy_range_exact.
